@@ -193,7 +193,8 @@ class StochasticSolver(ABC):
             step_trace[n_epoch + 1] = step
 
             # Check convergence
-            failed_epoch = f_est > f_est_prev
+            # A NaN estimate (diverged model) is a failed epoch too
+            failed_epoch = not f_est <= f_est_prev
             self._nfails += failed_epoch
 
             f_est_tol_test = f_est < self._f_est_tol
